@@ -926,6 +926,17 @@ class FnCompiler:
             return any(self.contains_return(x) for x in node)
         return False
 
+    def contains_panic(self, node):
+        if isinstance(node, tuple):
+            if node and node[0] == "macro" and isinstance(node[1], str) and node[1].split("::")[-1] in ("panic", "unreachable"):
+                return True
+            if node and node[0] == "closure":
+                return False
+            return any(self.contains_panic(x) for x in node)
+        if isinstance(node, list):
+            return any(self.contains_panic(x) for x in node)
+        return False
+
     def enabled(self, b):
         if b[0] == "unsafe":
             b = b[1]
@@ -969,7 +980,7 @@ class FnCompiler:
             if e[0] == "macro" and e[1].split("::")[-1] in ("panic", "unreachable"):
                 self.stmt_expr(e, cx)
                 return
-            if e[0] in ("block", "unsafe") and (self.contains_return(e) or (last and not s[2])):
+            if e[0] in ("block", "unsafe") and (self.contains_return(e) or self.contains_panic(e) or (last and not s[2])):
                 return self.final(self.enabled(e) + rest, cx)
             if e[0] == "if" and (self.contains_return(e) or self.expr_diverges(e[2]) or (e[3] is not None and self.expr_diverges(e[3]))):
                 cc, ct = self.expr(e[1], cx, BOOL)
@@ -1095,10 +1106,10 @@ class FnCompiler:
             return self.method_stmt(e, cx)
         if k in ("block", "unsafe"):
             b = e if k == "block" else e[1]
-            sts = [s for s in b[1] if rsparse.attrs_enabled(s[-1], self.tr.cfg)]
+            sts = self.enabled(b)       # the tail expression of a block in statement position is a statement
             saved = dict(cx.env)
             names = set(saved)
-            v, t = self.stmts(sts, b[2], cx, None, False)
+            v, t = self.stmts(sts, None, cx, None, False)
             # keep assignments to outer variables (shadowing already did), drop inner names
             cx.env = {n: (cx.env[n] if n in cx.env else saved[n]) for n in names}
             for n in names:
